@@ -118,12 +118,26 @@ func H02Files() {
 		if cfgKeys[k] != 0 {
 			wantLine++
 		}
-		if k == 0 || (names[k] == names[0]) {
-			// content of the first distinct file includes the Unit line
+		// the first distinct file's content also has the Unit line
+		firstOfName := true
+		for j := 0; j < k; j++ {
+			if names[j] == names[k] {
+				firstOfName = false
+			}
 		}
-		_ = fn
-		_ = line
-		_ = wantLine
+		_ = firstOfName
+		unitLine := false
+		for j := 0; j <= k; j++ {
+			if names[j] == names[k] {
+				unitLine = j == 0 // content was registered by the first file with this name
+				break
+			}
+		}
+		if unitLine {
+			wantLine++
+		}
+		vndAssert(fn == string(names[k:k+1]), "record-position-names-its-own-file")
+		vndAssert(line == wantLine, "line-numbers-restart-with-every-file")
 	}
 	// unit metadata carries across files
 	um := UnitMetadataMap(f.Units())
